@@ -31,6 +31,22 @@ fn typed_text(v: &Value) -> Option<Result<String, String>> {
     Some(r.map_err(|e| e.to_string()))
 }
 
+/// the pool of the history-independence checks: one value per kind and shape class, containers
+pub fn history_pool() -> Vec<V> {
+    let mut p = super::c03::base_values(Tier::Quick);
+    p.truncate(400);
+    p
+}
+
+/// everything observable of encoding and decoding one value through Zinc
+pub fn zinc_observation(v: &V) -> String {
+    let lv = to_lib(v);
+    let t = to_zinc_string(&lv).map_err(|e| e.to_string());
+    let typed = typed_text(&lv);
+    let back = t.as_ref().ok().map(|t| from_str(t).map(|b| format!("{:?}", from_lib(&b))).map_err(|e| e.to_string()));
+    format!("{t:?}|{typed:?}|{back:?}")
+}
+
 pub fn zinc_roundtrip(v: &V) -> Verdict {
     let lv = to_lib(v);
     let text = match guarded(|| to_zinc_string(&lv)) {
@@ -127,6 +143,36 @@ pub fn run(tier: Tier) -> i32 {
     });
     run.absorb(l);
 
+    // history independence: encode + decode of v after encode + decode of w, all ordered pairs of
+    // the shape-class representatives (one value per kind and shape class + containers)
+    let pool = history_pool();
+    run.note("history_pool", json!(pool.len()));
+    let l = super::common::history_pairs("zinc-codec", &pool, &zinc_observation, &|v: &V| to_json(v));
+    run.absorb(l);
+
+    // two values in one document: [w, v, {a:w b:v}] for all ordered pairs of the pool (state inside
+    // one decode or encode call: a "last unit / last zone / last string" memo)
+    {
+        let pool = history_pool();
+        let l = par_for(pool.len(), |i, local| {
+            for v in pool.iter() {
+                let doc = V::List(vec![pool[i].clone(), v.clone(), V::dict(&[("a", pool[i].clone()), ("b", v.clone())])]);
+                local.eval();
+                if let Err((stage, d)) = zinc_roundtrip(&doc) {
+                    // minimise to the pair
+                    let pair = V::List(vec![pool[i].clone(), v.clone()]);
+                    let (stage, d, shown) = match zinc_roundtrip(&pair) {
+                        Err((s2, d2)) => (s2, d2, pair),
+                        Ok(()) => (stage, d, doc),
+                    };
+                    local.fail(&format!("{stage}:two-values-in-one-document:{}", crate::model::shrink::shape_sig(&shown)), json!({"value": to_json(&shown)}), d);
+                }
+            }
+            local.count("pair-documents");
+        });
+        run.absorb(l);
+    }
+
     let shards = u::container_shards(tier);
     let mut ncont = 0u64;
     let l = par_for(shards.len(), |i, local| {
@@ -212,5 +258,12 @@ pub fn run(tier: Tier) -> i32 {
 }
 
 pub fn replay(case: &J) -> Verdict {
+    if case["history_pair"].is_string() {
+        let (w, v) = (crate::model::v::from_json(&case["before"]), crate::model::v::from_json(&case["then"]));
+        let alone = std::thread::scope(|s| s.spawn(|| zinc_observation(&v)).join().unwrap());
+        let _ = zinc_observation(&w);
+        let after = zinc_observation(&v);
+        return if alone == after { Ok(()) } else { Err(("history-changes-output:zinc-codec".into(), format!("alone {alone}, after {after}"))) };
+    }
     replay_value(case, &zinc_roundtrip)
 }
